@@ -1449,6 +1449,48 @@ Lemma apply_capture_old_rule_refuted_reinserted_key :
     veq sh live (apply sh pre (capture sh live)) = false.
 Proof. exists (TSD TSS), wD_pre, wD_ops. split; [exact wD_pre_good|vm_compute; reflexivity]. Qed.
 
+(* ------------------------------------------------------------------ erase + re-create in one cycle nets out *)
+Lemma put_same {A} k (v : A) l : ksorted l -> get k l = Some v -> put k v l = l.
+Proof.
+  intros Hs Hg. apply ksorted_ext; [apply ksorted_put, Hs|exact Hs|].
+  intros j. rewrite get_put. destruct (j =? k) eqn:E; [|reflexivity].
+  apply Z.eqb_eq in E; subst j. symmetry; exact Hg.
+Qed.
+
+(* Intended netting (time_series.rst "Slot lifetime": reinsertion within the cycle resurrects the
+   same slot without reconstructing its payload): erasing a key of a good dictionary and
+   re-creating it in the same cycle leaves exactly the dictionary it was - same keys, the SAME
+   child with its contents, nothing added, nothing removed, nothing modified - only marked as
+   touched this cycle.  Value and delta agree (nothing happened to the key), and what ticks is an
+   empty structural delta. *)
+Lemma erase_recreate_nets e m v items k c :
+  ksorted items -> get k items = Some (clean_flags, c) -> nmod c = false ->
+  dict_at e k (dict_erase k (NDict m v items)) = NDict true true items.
+Proof.
+  intros Hs Hg Hm. unfold dict_erase. rewrite Hg. cbn [f_live clean_flags f_published f_added].
+  unfold dict_at. rewrite get_put, Z.eqb_refl. cbn [f_live].
+  unfold resurrect_flags, restore_modified. cbn [f_removed f_added f_modified f_published f_live].
+  rewrite Hm. cbn [andb]. rewrite put_put. f_equal. apply put_same; assumption.
+Qed.
+
+Corollary erase_recreate_delta_empty e m v items k c :
+  good (TSD e) (NDict m v items) -> get k items = Some (clean_flags, c) ->
+  let live := dict_at e k (dict_erase k (NDict m v items)) in
+  capture (TSD e) live = DDict [] [] /\ commit (TSD e) live = NDict false true items.
+Proof.
+  intros (-> & Hs & HG) Hg.
+  assert (Hgc : good e c) by (apply (Forall_get _ _ _ _ HG Hg)).
+  cbn zeta. rewrite (erase_recreate_nets e false v items k c Hs Hg (good_nmod _ _ Hgc)).
+  pose proof (commit_good (TSD e) (NDict false true items)) as Hc.
+  assert (Hgood : good (TSD e) (NDict false true items)) by (cbn [good]; auto).
+  specialize (Hc Hgood). split; [|cbn [commit] in Hc |- *; injection Hc as Hc; rewrite Hc; reflexivity].
+  rewrite capture_tsd. f_equal.
+  - unfold rm_keys. clear - HG. induction items as [|[j [f x]] r IH]; [reflexivity|].
+    inversion HG as [|? ? [Hf _] HG']; subst. cbn in Hf. subst f. cbn [filter is_removed fst snd clean_flags f_removed]. apply IH, HG'.
+  - unfold md_of, fm. clear - HG. induction items as [|[j [f x]] r IH]; [reflexivity|].
+    inversion HG as [|? ? [Hf _] HG']; subst. cbn in Hf. subst f. cbn [filter live_mod fst snd clean_flags f_live f_modified andb]. apply IH, HG'.
+Qed.
+
 (* ------------------------------------------------------------------ sets: EVERY mutation script *)
 (* the slot-storage invariant of a set during a cycle, against its pre-tick elements *)
 Definition set_inv (el0 : list Z) (n : node) : Prop :=
